@@ -776,6 +776,11 @@ void Annotator::clearAllIds()
 
 void Annotator::clearAllIds(ModelPtr &model)
 {
+    if (model == nullptr) {
+        pFunc()->addIssueNoModel();
+        return;
+    }
+
     pFunc()->mModel = model;
     clearAllIds();
 }
